@@ -140,7 +140,7 @@ impl Recorder {
         Cfg {
             layout: layout.into(), psug: phon && sug, fsug: !phon && sug, english: b(&mut self.rng), ansi: self.rng.below(6) == 0, smart: b(&mut self.rng),
             vowel: b(&mut self.rng), chandra: b(&mut self.rng), kar: b(&mut self.rng), reph: b(&mut self.rng), numpad: b(&mut self.rng),
-            karorder: self.rng.below(3) == 0, db: true,
+            karorder: self.rng.below(3) == 0, db: true, altdb: false,
         }
     }
 
@@ -448,7 +448,7 @@ impl Recorder {
     fn flip_retype(&mut self, shard: usize, shards: usize) {
         let base = |phon: bool| Cfg {
             layout: if phon { "phonetic".into() } else { "probhat".into() }, psug: phon, fsug: !phon, english: true, ansi: false, smart: false,
-            vowel: true, chandra: true, kar: false, reph: true, numpad: true, karorder: false, db: true,
+            vowel: true, chandra: true, kar: false, reph: true, numpad: true, karorder: false, db: true, altdb: false,
         };
         let mut n = 0usize;
         for phon in [true, false] {
